@@ -193,6 +193,13 @@ pub fn run_scenario(scn: &Scenario) -> RunOut {
     match &scn.body {
         Body::Store(s) => match scn.check.as_str() {
             "C19" if s.threads.len() > 1 => run_sim(scn, |ctx, scn| store::run_conc(ctx, store_of(scn))),
+            "C14" if s.fault.is_some() => {
+                // the fault engine of C20, judged by the file discipline only (what the store
+                // answers after a failed call is C20's subject)
+                let mut out = run_sim(scn, |ctx, scn| store::run_fault_one(ctx, store_of(scn)));
+                out.violations.retain(|v| matches!(v.class.as_str(), "file-discipline" | "id-not-monotonic" | "file-too-large" | "shadow-divergence"));
+                out
+            }
             "C01" | "C02" | "C05" | "C12" | "C13" | "C14" | "C19" => run_sim(scn, |ctx, scn| store::run_seq(ctx, store_of(scn))),
             "C03" => run_sim(scn, |ctx, scn| store::run_crash(ctx, store_of(scn), false)),
             "C09" => run_sim(scn, |ctx, scn| store::run_crash(ctx, store_of(scn), true)),
